@@ -288,3 +288,54 @@ for _d in (1, 2, 3):
     _mk_hull(_d, "quick")
 for _d in (4, 5, 6):
     _mk_hull(_d, "quick")
+
+
+def _mk_winding_norm(d):
+    @proof(f"C18.winding-normalisation[d={d}]", "C18", funcs=["curve.IntegratePlanar.winding_number_linear", "curve.IntegratePlanar.winding_number"], props=["C18", "C02", "C12"], abstract=True)
+    def _winding_norm(h):
+        """with only the *range* of atan2 modelled (angles in [-pi, pi]): the chord contribution is the angle difference
+        b - a in turns, normalised into [-1/2, 1/2] by an integer correction; the contribution of a segment sampled at
+        degree+1 nodes telescopes to (angle of the last point - angle of the first point) in turns plus an integer; the
+        centre is used as given (only differences to the centre enter: no dependence on the origin)."""
+        import math as _m
+
+        import z3 as _z3
+
+        from ..symx import Engine as _E
+        from ..symx import lift as _lift
+
+        if not h.sym:
+            return
+        h.assumed_contract("np.arctan2(y, x) is the angle of (x, y) in [-pi, pi] (range modelled, value trusted; bounded: C18.rc-kernels)")
+        cx, cy = h.reals("cx cy", "F")
+        eng = _E.cur
+        tau = _lift(_m.tau)
+        if d == 0:
+            ax, ay, bx, by = h.reals("ax ay bx by", "F")
+            w = IntegratePlanar.winding_number_linear(Point2D(ax, ay), Point2D(bx, by), Point2D(cx, cy))
+            cache = eng.__dict__.get("_atan", {})
+            h.ensure("angles-taken-relative-to-the-centre", set(cache) == {(_lift(ay - cy).sexpr(), _lift(ax - cx).sexpr()), (_lift(by - cy).sexpr(), _lift(bx - cx).sexpr())})
+            A = cache[(_lift(ay - cy).sexpr(), _lift(ax - cx).sexpr())]
+            B = cache[(_lift(by - cy).sexpr(), _lift(bx - cx).sexpr())]
+            raw = (B.t - A.t) / tau
+            h.ensure("result-within-half-a-turn", AND(w >= Fraction(-1, 2), w <= Fraction(1, 2)))
+            h.ensure("result-is-angle-difference-up-to-a-whole-turn", SymBool_(_z3.Or(_lift(w) == raw, _lift(w) == raw - 1, _lift(w) == raw + 1)))
+            return
+        seg, ctrl = mk_segment(h, "q", d, mode="F")
+        tot = IntegratePlanar.winding_number(seg, Point2D(cx, cy))
+        cache = eng.__dict__.get("_atan", {})
+        first, last = ctrl[0], ctrl[-1]
+        A0 = cache[(_lift(first[1] - cy).sexpr(), _lift(first[0] - cx).sexpr())]
+        A1 = cache[(_lift(last[1] - cy).sexpr(), _lift(last[0] - cx).sexpr())]
+        diff = _lift(tot) - (A1.t - A0.t) / tau
+        h.ensure("segment-contribution-telescopes-up-to-an-integer", SymBool_(_z3.Or(*[diff == k for k in range(-d, d + 1)])))
+
+
+for _d in (0, 1, 2, 3):
+    _mk_winding_norm(_d)
+
+
+def SymBool_(t):
+    from ..symx import SymBool
+
+    return SymBool(t)
